@@ -110,7 +110,8 @@ def gen_scenario(rng):
             o = rng.choice([i for i, x in enumerate(objects) if x['kind'] in ('table', 'rec')])
         c = rng.randrange(len(confs))
         via = rng.choice(['explicit', 'explicit', 'global', 'palette_class', 'palette_obj', 'custom_palette'])
-        mode = rng.choice(['whole', 'whole', 'lines', 'lines_join', 'whole_then_lines', 'lines_twice', 'interleaved'])
+        mode = rng.choice(['whole', 'whole', 'lines', 'lines_join', 'whole_then_lines', 'lines_twice', 'interleaved',
+                           'copy', 'concat', 'format', 'plain'])
         if objects[o]['kind'] in ('rec', 'hdoc'):
             mode = 'whole'   # a formatted record is a plain CHText, help text is printed: no line iteration
         long_lived = rng.random() < 0.3
